@@ -19,6 +19,9 @@ type MClient struct {
 	Tables map[string]*MTable
 	Fail   string // none | internal_server | deprecated
 	Native bool
+	// Matchers: Go filter matchers registered on this client\'s native
+	// interpreter: table + "|" + filter text -> constant answer
+	Matchers map[string]bool
 }
 
 // Model is the whole simulated world.
@@ -39,6 +42,12 @@ func (m *Model) Clone() *Model {
 	n := &Model{}
 	for _, c := range m.Clients {
 		nc := &MClient{Tables: map[string]*MTable{}, Fail: c.Fail, Native: c.Native}
+		if c.Matchers != nil {
+			nc.Matchers = map[string]bool{}
+			for k, v := range c.Matchers {
+				nc.Matchers[k] = v
+			}
+		}
 		for name, t := range c.Tables {
 			nt := &MTable{Def: t.Def.clone(), Items: make(map[string]Item, len(t.Items))}
 			for k, it := range t.Items {
@@ -58,6 +67,12 @@ func (m *Model) Canon() string {
 		sb.WriteString("client")
 		sb.WriteByte(byte('0' + i))
 		sb.WriteString(" fail=" + c.Fail)
+		if c.Native {
+			sb.WriteString(" native")
+		}
+		for _, k := range sortedKeys(c.Matchers) {
+			sb.WriteString(" matcher[" + k + "]")
+		}
 		for _, name := range sortedKeys(c.Tables) {
 			t := c.Tables[name]
 			sb.WriteString("\n " + name + " " + schemaString(t.Def.KeyAttrs()))
@@ -334,6 +349,12 @@ func (m *Model) Apply(cmd *Cmd) Expect {
 		if cmd.Op == "Native" && cmd.Native == "activate" {
 			c.Native = true
 		}
+		if cmd.Op == "Native" && cmd.Native == "matcher" {
+			if c.Matchers == nil {
+				c.Matchers = map[string]bool{}
+			}
+			c.Matchers[cmd.T+"|"+FilterText(cmd)] = cmd.Verdict
+		}
 		return Expect{Out: Outcome{Class: "ok"}}
 	case "Transact":
 		return Expect{Out: Outcome{Class: "ok"}}
@@ -421,7 +442,17 @@ func (m *Model) Apply(cmd *Cmd) Expect {
 		if cmd.Index != "" && t.Def.index(cmd.Index) == nil {
 			return Expect{AnyFail: true, MayAccept: true}
 		}
-		items := t.Select(cmd.Index, cmd.Part, cmd.Sort, cmd.Filter, cmd.Back)
+		filter := cmd.Filter
+		if verdict, ok := c.Matchers[cmd.T+"|"+FilterText(cmd)]; ok && c.Native && filter != nil {
+			// native interpreter active and a Go matcher registered under exactly
+			// this table, kind and text: its answer is what the operation uses
+			if verdict {
+				filter = nil
+			} else {
+				filter = &Expr{Op: "and", Args: []*Expr{{Op: "exists", Path: &Path{Attr: t.Def.Hash.Name}}, {Op: "not_exists", Path: &Path{Attr: t.Def.Hash.Name}}}}
+			}
+		}
+		items := t.Select(cmd.Index, cmd.Part, cmd.Sort, filter, cmd.Back)
 		if cmd.Op == "Open" || cmd.Op == "Resume" {
 			return Expect{Out: Outcome{Class: "ok"}, Matching: items}
 		}
